@@ -55,6 +55,7 @@ DTYPES = [("", XSD_STRING, None), ("@en", LANGSTRING, None), ("@en-GB", LANGSTRI
           ("^^dtp:si:kg", "http://ex.org/dt/si:kg", "dtp"),
           ("^^xsd:string", XSD_STRING, "xsd")]
 SEPS = [" ", " ", "\t", "  ", "\n", "\n", "\n   "]
+CSEPS = [" ", "\t", "  ", " \t", "\t "]
 COMMENTS = ["# a comment", "#c", '# "quoted" ; , .', "# <http://ex.org/a> ex:p ex:o ."]
 
 
@@ -127,6 +128,7 @@ def build(case):
     ch = Chooser(case.get("forms"))
     sp = Chooser(case.get("seps"))
     cm = Chooser(case.get("comments"))
+    cs = Chooser(case.get("comment_seps"))      # what separates a trailing comment from the statement: blank(s) and / or a tab
     gr = Chooser(case.get("group"))
     triples = case["triples"]
     labels = set()
@@ -222,7 +224,7 @@ def build(case):
                 labels.add("linebreak-in-statement")
                 c = cm.pick(6)
                 if c == 0:
-                    text += " " + COMMENTS[cm.pick(len(COMMENTS))]
+                    text += CSEPS[cs.pick(len(CSEPS))] + COMMENTS[cm.pick(len(COMMENTS))]
                     labels.add("comment")
                     labels.add("trailing-comment")
                 elif c == 1:
@@ -232,7 +234,7 @@ def build(case):
         c = cm.pick(8)
         joiner = "\n"
         if c == 0:
-            text += " " + COMMENTS[cm.pick(len(COMMENTS))]
+            text += CSEPS[cs.pick(len(CSEPS))] + COMMENTS[cm.pick(len(COMMENTS))]
             labels.add("comment")
             labels.add("trailing-comment")
         elif c == 1:
@@ -482,7 +484,7 @@ def cases(draw):
             seen.add(key)
             triples.append([list(s), p, o])
     ints = st.lists(st.integers(0, 41), min_size=1, max_size=24)
-    case = {"triples": triples, "forms": draw(ints), "seps": draw(ints), "comments": draw(ints), "group": draw(ints),
+    case = {"triples": triples, "forms": draw(ints), "seps": draw(ints), "comments": draw(ints), "comment_seps": draw(ints), "group": draw(ints),
             "base": draw(st.sampled_from([False, True, 2])), "prefix_mask": draw(st.integers(0, 255)),
             "chan": draw(st.sampled_from(["raw", "raw", "raw", "raw", "file", "gz", "xz"])), "dangling": draw(st.integers(0, 3)) == 0}
     if draw(st.integers(0, 3)) == 0:
